@@ -219,6 +219,9 @@ class Leg:
                              "handle_abort=1:malloc_context_size=16:detect_stack_use_after_return=0:"
                              "strict_string_checks=0:print_summary=0"
                              % (lp, SAN_EXIT, 1 if lsan else 0))
+        if self.extra_env.get("VF_ASAN_EXTRA"):
+            # per-leg additions (props: env={"VF_ASAN_EXTRA": "detect_stack_use_after_return=1"}); later options win
+            e["ASAN_OPTIONS"] += ":" + self.extra_env["VF_ASAN_EXTRA"]
         e["UBSAN_OPTIONS"] = "print_stacktrace=1:log_path=%s:exitcode=%d" % (lp, SAN_EXIT)
         e["LSAN_OPTIONS"] = "exitcode=%d:print_suppressions=0" % SAN_EXIT
         if self.known:
